@@ -57,6 +57,7 @@ type scluster struct {
 	ready bool
 	salt  uint64
 	log   *reviewLog
+	gates *gateSet
 }
 
 type reviewLog struct {
@@ -117,14 +118,15 @@ func sarKey(s *authorizationv1.SubjectAccessReviewSpec) string {
 	return k
 }
 
-func newSCluster(name string, salt uint64, log *reviewLog) *scluster {
-	c := &scluster{name: name, ready: true, salt: salt, log: log}
+func newSCluster(name string, salt uint64, log *reviewLog, gates *gateSet) *scluster {
+	c := &scluster{name: name, ready: true, salt: salt, log: log, gates: gates}
 	// a ClusterInfo of its own: Context() is what the production code ties its cache lifetime to
 	c.info = clusters.NewEmptyClusterInfo(name, nil, nil, "", nil)
 	c.cs = fake.NewSimpleClientset()
 	c.cs.PrependReactor("create", "tokenreviews", func(action k8stesting.Action) (bool, k8sruntime.Object, error) {
 		tr := action.(k8stesting.CreateAction).GetObject().(*authenticationv1.TokenReview).DeepCopy()
 		log.add(review{Cluster: name, Kind: "token", Key: tr.Spec.Token})
+		gates.hold("token", tr.Spec.Token, name)
 		switch c.answer("token", tr.Spec.Token) {
 		case ansYes:
 			tr.Status = authenticationv1.TokenReviewStatus{Authenticated: true, User: authenticationv1.UserInfo{
@@ -140,6 +142,7 @@ func newSCluster(name string, salt uint64, log *reviewLog) *scluster {
 		sar := action.(k8stesting.CreateAction).GetObject().(*authorizationv1.SubjectAccessReview).DeepCopy()
 		key := sarKey(&sar.Spec)
 		log.add(review{Cluster: name, Kind: "sar", Key: key})
+		gates.hold("sar", key, name)
 		switch c.answer("sar", key) {
 		case ansYes:
 			sar.Status = authorizationv1.SubjectAccessReviewStatus{Allowed: true, Reason: "by:" + name}
@@ -229,6 +232,9 @@ type scenario struct {
 	everOwn  map[string]map[string]bool // host -> clusters that ever owned it
 	hostPool []string
 	panicked bool
+	gates    *gateSet
+	sigCtx   string // appended to violation signatures while the overlap phase is judged
+	caseN    int
 	features map[string]bool
 }
 
@@ -253,11 +259,11 @@ var attrSpecs = []attrSpec{
 }
 
 func newScenario(r *vkit.R, idx int, g *vkit.Rand) *scenario {
-	s := &scenario{r: r, idx: idx, g: g, log: &reviewLog{}, gone: map[string]bool{}, everOwn: map[string]map[string]bool{}, features: map[string]bool{}}
+	s := &scenario{r: r, idx: idx, g: g, log: &reviewLog{}, gates: newGateSet(), gone: map[string]bool{}, everOwn: map[string]map[string]bool{}, features: map[string]bool{}}
 	s.p = &provider{hosts: map[string]*scluster{}}
 	k := g.Range(2, 4)
 	for i := 0; i < k; i++ {
-		c := newSCluster(fmt.Sprintf("cl%d", i), g.Uint64(), s.log)
+		c := newSCluster(fmt.Sprintf("cl%d", i), g.Uint64(), s.log, s.gates)
 		s.cls = append(s.cls, c)
 		s.setOwner(c.name, c)
 		s.hostPool = append(s.hostPool, c.name)
@@ -334,7 +340,7 @@ func (s *scenario) judge(kind string, o *op, owner *scluster, positive bool, pro
 	for _, rv := range reviews {
 		r.Count("reviews_observed", 1)
 		if rv.Cluster != ownerName {
-			r.Violation("C12/"+kind+"/review-sent-to-other-cluster",
+			r.Violation("C12/"+kind+"/review-sent-to-other-cluster"+s.sigCtx,
 				fmt.Sprintf("request addressed to host %q (cluster %q) caused a %s review at cluster %q", o.Host, ownerName, rv.Kind, rv.Cluster), s.witness(nil))
 			return
 		}
@@ -349,7 +355,7 @@ func (s *scenario) judge(kind string, o *op, owner *scluster, positive bool, pro
 		if positive {
 			polarity = "positive"
 		}
-		r.Violation("C12/"+kind+"/"+class,
+		r.Violation("C12/"+kind+"/"+class+s.sigCtx,
 			fmt.Sprintf("%s request to host %q, which belongs to cluster %q at that moment, was decided by a %s answer of cluster %q (%s); %d review(s) were sent for it",
 				kind, o.Host, orNone(ownerName), polarity, prov, o.Result, len(reviews)), s.witness(map[string]interface{}{"applied_answer_of": prov, "host_owner": ownerName}))
 		return
@@ -517,6 +523,11 @@ func (s *scenario) run(nops int) {
 	var rec []recent
 	for i := 0; i < nops && !s.panicked; i++ {
 		roll := g.Intn(100)
+		if g.Chance(0.08) {
+			// concurrent phase: the same fresh credentials go to hosts of different clusters at the same time
+			s.overlapCase(g.Bool())
+			continue
+		}
 		switch {
 		case roll < 40:
 			host, tok := s.pickHost(), tokens[g.Intn(len(tokens))]
@@ -626,7 +637,10 @@ func TestCheck(t *testing.T) {
 			"(2-4 clusters with fake clientsets whose tokenreview/subjectaccessreview reactors answer from a fixed per-cluster table: same token => a different user per cluster, " +
 			"same SAR => allow/deny/no-opinion/outage per cluster). Seeded random sequences of 60 operations: AuthenticateToken / Authorize (incl. impersonate users/groups) for 4 tokens, " +
 			"2 users x 5 attribute tuples on 7-9 hosts (cluster names, aliases, an unknown host), with re-use of recent credentials on other hosts; an alias moves to another live cluster " +
-			"(followed by a replay of the recent credentials on it); a cluster loses / regains its ready endpoint; an alias is dropped; a cluster is deleted. Cache TTL pairs from " +
+			"(followed by a replay of the recent credentials on it); a cluster loses / regains its ready endpoint; an alias is dropped; a cluster is deleted; " +
+			"concurrent phase (about 5 per scenario): one fresh token, or one fresh user x attribute tuple, is sent to 2-4 hosts of pairwise different clusters at the same time - the stub review of the " +
+			"first request is held at a barrier inside the reactor until the other requests have been issued (and have reached their own cluster's barrier or returned), so the overlap is " +
+			"constructed, not hoped for; the credentials are then replayed sequentially on the same hosts. Cache TTL pairs from " +
 			"{0, 50ms, 10s, 1h} incl. asymmetric ones. Oracle: provenance monitor (see package comment) + every review caused by a request is received by the cluster owning the host. " +
 			"thorough tier adds the production wiring (real Manager/controller/handler chain, HTTP stub upstreams serving TokenReview/SAR) and concurrency. " +
 			"Non-trivial = the scenario contains at least two hosts of different clusters asked with the same credentials; distinct = hash of the operation list.")
@@ -664,6 +678,9 @@ func TestCheck(t *testing.T) {
 		r.Require(r.Counter("alias_moves") > int64(ns), "too few alias moves")
 		r.Require(r.Counter("authz_impersonation_requests") > int64(ns), "too few impersonation checks")
 		r.Require(r.Counter("authn_refused_no_ready_endpoint")+r.Counter("authz_refused_no_ready_endpoint") > int64(ns/2), "too few requests to clusters without a ready endpoint")
+		r.Require(r.Counter("overlap_pairs_authn") >= int64(ns/2) && r.Counter("overlap_pairs_authz") >= int64(ns/2) && r.Counter("overlap_pairs_authz_impersonation") >= int64(ns/10),
+			"too few request pairs with the same credentials overlapped (review of the first in flight while the second was issued)")
+		r.Require(r.Counter("gate_watchdog_expired") == 0, "a gated stub review was not released within the 20s watchdog")
 		r.Require(r.Counter("own_cluster_answer_differs_from_table") == 0, "instrument broken: an answer attributed to the host's own cluster is not that cluster's table answer")
 	})
 }
